@@ -375,6 +375,7 @@ def rule_state(r):
         raise AnalysisError("state rule examined only %d writes" % n)
 
 
+from . import extra3 as _x3
 RULES = [
     ("R-C11-clone", 1, "clone shares no mutable state", rule_clone),
     ("R-C11-state", 5, "no evaluation-to-evaluation state in kernel objects", rule_state),
@@ -383,7 +384,10 @@ RULES = [
     ("R-C11-scratch", 3, "shared python parameter vector fully overwritten before use", rule_scratch),
     ("R-C11-globals", 3, "who-may-write module-level state", rule_globals),
     ("R-C11-reload", 4, "library handle typestate", rule_reload),
+    ("R-C11-views", 6, "caller arrays are selected by a copying mask before in-place edits", _x3.rule_c11_views),
 ]
+from . import folds as _folds
+RULES = RULES + [_folds.fold_rule('C11')]
 
 
 def run(tier="quick", replay=None):
